@@ -5,7 +5,9 @@
 Require Extraction.
 Require Import ExtrOcamlBasic ExtrOcamlNativeString ExtrOCamlInt63.
 From Coq Require Import NArith.
-From V Require Import Base.Sha256 Ssz.SszCore Beacon.Config Beacon.Schemas Beacon.State Beacon.Spec.Helpers Beacon.Run Beacon.Impl.Genesis.
+From V Require Import Base.Sha256 Ssz.SszCore Beacon.Config Beacon.Schemas Beacon.State Beacon.Spec.Helpers Beacon.Run Beacon.Impl.Genesis
+  Beacon.Impl.Epc Beacon.Refine.EpcRefine Beacon.Refine.EpcRun.
 Extraction Language OCaml.
 Extraction "beacon_model.ml" N.add N.mul N.of_nat N.to_nat N.eqb sha256 config_of config_num_keys config_byte_keys
-  mk_env run_slots run_transition run_genesis diff_state_fields run_epc_view fork_idx diagnose_transition payload_root run_state_root run_genesis_impl run_kickstart_impl.
+  mk_env run_slots run_transition run_genesis diff_state_fields run_epc_view fork_idx diagnose_transition payload_root run_state_root run_genesis_impl run_kickstart_impl
+  run_epc_impl_fresh run_epc_impl_slots run_epc_impl_trans epc_to_view epc_pubkeys.
